@@ -54,7 +54,8 @@ _ca_q = dict(params={"execs": 2, "max_inv": 2, "max_retries": 1, "handles": 3}, 
 PROPS["C01"] = {"quick": [Z("ZZ_C01_Compose", labels=["nesting:"], **_cmp_q),
                           L2("ZZ_S07d_RetryTimeoutCtx", 1, labels=["timeout: ErrExceeded only", "cancel:"], note="Retry(Timeout(fn)) + caller cancel: the caller receives the outermost policy's error, not a stale inner timeout result from an earlier, already retried attempt; P=1"),
                           L2("ZZ_S07e_TimeoutOutside", 1, labels=["nesting:"], note="Timeout(T)(Bulkhead|Breaker(fn sleeping d)), T,d symbolic: the inner policy post-processes the function's outcome also when the timeout fires; P=1")],
-                "thorough": [Z("ZZ_C01_Compose", labels=["nesting:"], **_cmp_t), Z("ZZ_C01_Compose", labels=["nesting:"], **_cmp_t2), L2("ZZ_S07e_TimeoutOutside", 3, labels=["nesting:"], note="P=3")],
+                "thorough": [Z("ZZ_C01_Compose", labels=["nesting:"], **_cmp_t), Z("ZZ_C01_Compose", labels=["nesting:"], **_cmp_t2), L2("ZZ_S07e_TimeoutOutside", 3, labels=["nesting:"], note="P=3"),
+                             L2("ZZ_S07d_RetryTimeoutCtx", 2, labels=["timeout: ErrExceeded only", "cancel:"], time_limit_s=3000, note="Retry(Timeout(fn)) + caller cancel; P=2")],
                 "assumptions": ["hedge policy and firing timeouts/blocking waits are covered per policy (C06-C09), not inside the sequential composition", "unlimited retries only where every attempt reaches the function"]}
 PROPS["C02"] = {"quick": [Z("ZZ_C02_Retry", labels=["nesting:", "stats:"], **_ret_q), Z("ZZ_C02_Retry", labels=["nesting:", "stats:"], **_ret_q2), Z("ZZ_C02_RetryNested", labels=["nesting:"], **_retn)],
                 "thorough": [Z("ZZ_C02_Retry", labels=["nesting:", "stats:"], **_ret_t), Z("ZZ_C02_RetryNested", labels=["nesting:"], **_retn)],
